@@ -24,13 +24,16 @@ Weakest-reading decisions (accepted, not reported):
     400/415, but if it is accepted the RPC layer must get the concatenation, not the first frame only;
   * CONTENT_LENGTH larger than the bytes available: the available bytes are the request; a 413 on the declared length
     is fine;
-  * no 5xx is ever acceptable.
+  * no 5xx is ever acceptable, and every request must be answered: the decoder functions run under a deterministic
+    step budget (400k source lines of ``_codec`` decoder code per request, ~100x the largest legitimate case) so a
+    decoder loop that never terminates is reported (``<codec>:decode-never-terminates``) instead of hanging the check.
 Allocation bound for refused-by-decoded-size cases: peak traced allocation during the request
 <= 3*len(wire body) + 3*cap + 384 KiB (cap + one 64 KiB chunk, generously doubled for copies/joins).
 """
 
 from __future__ import annotations
 
+import contextvars
 import json
 import tracemalloc
 import zlib
@@ -285,19 +288,28 @@ def _make_frame(pname: str, fname: str) -> tuple[str | None, bytes]:
 
 
 def model(w: bytes, cl: Any, token: str | None, cap: int | None, zstd_on: bool, memo: Any = None) -> dict[str, Any]:
-    """What a conforming server may do with this request: {'refuse': set(statuses), 'pass': bytes|None, ...}."""
+    """What a conforming server may do with this request.
+
+    ``refuse``: acceptable refusal statuses; ``pass``: bytes the RPC layer must get if the request is not refused
+    (None = must be refused); ``decline``: extra statuses acceptable *instead of* passing (legal-but-unusual bodies).
+    """
     if cl in ("honest", "absent"):
         seen, wire = w, len(w)
     else:
         seen, wire = w[: int(cl)], int(cl)
     refuse: set[int] = set()
+    decline: set[int] = set()
     over_wire = cap is not None and (wire > cap or len(seen) > cap)
     if over_wire:
         refuse.add(413)
     tok = (token or "").strip().lower()
     passthru: bytes | None = None
-    info: dict[str, Any] = {"codec": tok or "none", "shape": "plain", "decoded": None, "declared": None}
-    decline_ok = False  # a well-formed but unusual body the server may decline with 400/415
+    info: dict[str, Any] = {"codec": (tok or "none") if tok in ("", "zstd", "gzip", "identity") else "other", "shape": "plain",
+                            "decoded": None, "declared": None, "full": None}
+
+    def over(n: int | None) -> bool:
+        return cap is not None and n is not None and n > cap
+
     if tok == "":
         passthru = seen
     elif tok == "identity":
@@ -317,26 +329,46 @@ def model(w: bytes, cl: Any, token: str | None, cap: int | None, zstd_on: bool, 
         declared = K.zstd_declared_size(seen) if tok == "zstd" else None
         info["declared"] = declared
         info["decoded"] = len(ref.data)
-        if ref.ok:
-            info["shape"] = "ok" if ref.frames == 1 else "multi-frame"
-            if cap is not None and len(ref.data) > cap:
-                refuse.add(413)
-                info["shape"] += "-overcap"
+        lying = ref.ok and ref.frames == 1 and declared is not None and declared != len(ref.data)
+        if ref.ok and not lying:
+            if ref.frames == 1:
+                info["shape"] = "ok"
+                if over(len(ref.data)):
+                    refuse.add(413)
+                else:
+                    passthru = ref.data
             else:
+                # legal multi-frame / multi-member body: pass the concatenation, or decline it
+                info["shape"] = "multi-frame"
+                info["full"] = ref.data
+                decline |= {400, 415}
+                if over(len(ref.data)):
+                    refuse.add(413)
+                else:
+                    passthru = ref.data
+        elif lying:
+            # declared content size disagrees with the content: corrupt -> 400; 413 if either size is over the cap;
+            # a lenient decoder that yields the real content is tolerated when that content fits the cap
+            info["shape"] = "undecodable:size-mismatch"
+            refuse.add(400)
+            if over(declared) or over(len(ref.data)):
+                refuse.add(413)
+            if ref.ok and not over(len(ref.data)):
                 passthru = ref.data
-                decline_ok = ref.frames > 1
         else:
             refuse.add(400)
             info["shape"] = "undecodable:" + ref.why.split(":")[0]
-            if cap is not None and (len(ref.data) > cap or (declared is not None and declared > cap)):
+            if over(len(ref.data)) or over(declared):
                 refuse.add(413)
-            if ref.frames >= 1 and ref.why.startswith("error") and not (cap is not None and len(ref.data) > cap):
-                # complete frame(s) then non-frame bytes: lenient pass-through of the frames is acceptable
-                passthru = ref.data
+            if ref.frames >= 1 and ref.why.startswith("error"):
+                # complete frame(s) then non-frame bytes: lenient pass-through of the frames is tolerated
                 info["shape"] = "trailing-garbage"
+                if not over(len(ref.data)):
+                    passthru = ref.data
     if over_wire:
         passthru = None
-    return {"refuse": refuse, "pass": passthru, "decline_ok": decline_ok, "info": info, "seen": seen, "over_wire": over_wire}
+        decline = set()
+    return {"refuse": refuse, "pass": passthru, "decline": decline, "info": info, "seen": seen, "over_wire": over_wire}
 
 
 def result_ok(valid: str, body: bytes) -> bool:
@@ -381,19 +413,36 @@ def judge(ctx: Ctx, case: dict[str, Any], sample: bool = False) -> None:
         tracemalloc.start(1)
         base = tracemalloc.get_traced_memory()[0]
         tracemalloc.reset_peak()
+    hang: str | None = None
+    r = K.Resp(0, [], b"")
     try:
-        r = K.wsgi_call(app, "POST", p["path"], headers, w, clv)
+        with K.step_budget(5000 + 32 * (((info["decoded"] or 0) + len(w)) // 65536)):
+            # a fresh context per request: a request aborted by the watchdog must not leak contextvars into the next
+            r = contextvars.copy_context().run(K.wsgi_call, app, "POST", p["path"], headers, w, clv)
+    except K.NeverTerminates as exc:
+        hang = str(exc)
+        _APPS.pop((cap, cfg), None)
     finally:
         if measure:
             peak = tracemalloc.get_traced_memory()[1] - base
             tracemalloc.stop()
+    if hang is not None:
+        info_h = m["info"]
+        ctx.fail(f"{info_h['codec']}:decode-never-terminates",
+                 f"the request was never answered: {hang}; payload={pname}({len(p['u'])}B) frame={fname}({len(w)}B) "
+                 f"token={token!r} cap={cap} cfg={cfg} content_length={cl} (model: {info_h['shape']})", case)
+        ctx.extra["hangs"] += 1
+        ctx.case(nontrivial=f"{info_h['codec'][:2]}hang", outcome=f"{info_h['codec'][:2]}hang")
+        return
     seam = list(K.SEEN)
     st = r.status
     desc = (f"payload={pname}({len(p['u'])}B) frame={fname}({len(w)}B) token={token!r} cap={cap} cfg={cfg} "
-            f"content_length={cl} -> status {st}, rpc-layer got {[len(s) for s in seam]} bytes, read {r.nread} from wsgi.input")
-    gw = "" if cl == "honest" else f":cl-{cl}"
+            f"content_length={cl} -> status {st}{' +X-VGI-RPC-Error' if r.get('x-vgi-rpc-error') else ''}, rpc-layer got "
+            f"{[len(s) for s in seam]} bytes, read {r.nread} from wsgi.input (model: {info['shape']}, decoded {info['decoded']}, declared {info['declared']})")
     codec = info["codec"]
-    refuse, passthru = m["refuse"], m["pass"]
+    shape0 = info["shape"].split(":")[0]
+    reason = info["shape"].split(":")[-1]
+    refuse, passthru, decline = m["refuse"], m["pass"], m["decline"]
     outcome = f"{st}/{'-' if not seam else ('=' if passthru is not None and seam == [passthru] else '!')}"
 
     def fail(kind: str, why: str) -> None:
@@ -401,51 +450,43 @@ def judge(ctx: Ctx, case: dict[str, Any], sample: bool = False) -> None:
             # one root cause for every shape: the body of a request without CONTENT_LENGTH is never read
             ctx.fail("no-content-length:body-never-read", f"{why}; {desc}", case)
         else:
-            ctx.fail(f"{kind}{gw}", f"{why}; {desc}", case)
+            ctx.fail(kind, f"{why}; {desc}", case)
 
+    full = info["full"]
+    passed_exact = passthru is not None and seam == [passthru] and st not in (413, 415)
+    refused_ok = st in refuse and (not seam or st == 400)
+    declined_ok = st in decline and not seam
     if st >= 500:
-        fail(f"{codec}:{info['shape']}:5xx", "server error")
+        fail(f"{codec}:{shape0}:5xx", "server error")
+    elif full is not None and seam and seam[0] != full and full.startswith(seam[0]):
+        fail(f"{codec}:multi-frame:first-frame-only",
+             f"a well-formed multi-frame {codec} body ({len(full)} decoded bytes) was accepted but the RPC layer got only a prefix of the concatenation")
+    elif passed_exact:
+        if not refuse and p["valid"] and passthru == p["u"] and not (st == 200 and r.get("x-vgi-rpc-error") is None and result_ok(p["valid"], r.body)):
+            fail(f"{codec}:{shape0}:valid-request-not-answered", "the RPC layer got the exact request but the call was not answered 200 with its result")
+    elif refused_ok or declined_ok:
+        pass
     elif passthru is not None and not refuse:
-        # must reach the RPC layer byte-for-byte (or, for legal multi-frame bodies, be declined)
-        if seam == [passthru]:
-            if p["valid"] and passthru == p["u"] and not (st == 200 and r.get("x-vgi-rpc-error") is None and result_ok(p["valid"], r.body)):
-                fail(f"{codec}:{info['shape']}:valid-request-not-answered", "the RPC layer got the exact request but the call was not answered 200 with its result")
-        elif m["decline_ok"] and st in (400, 415) and not seam:
-            pass
-        elif m["decline_ok"] and seam:
-            fail(f"{codec}:multi-frame:first-frame-only" if seam[0] != passthru and passthru.startswith(seam[0]) else f"{codec}:multi-frame:wrong-bytes",
-                 f"a well-formed multi-frame {codec} body was accepted but the RPC layer did not get the concatenation of all frames ({len(passthru)} bytes)")
-        elif not seam:
-            fail(f"{codec}:{info['shape']}:refused-{st}", f"a body that must be passed through ({len(passthru)} bytes) was refused with {st}")
+        if not seam:
+            fail(f"{codec}:{shape0}:refused-{st}", f"a body that must be passed through ({len(passthru)} bytes) was refused with {st}")
         else:
-            fail(f"{codec}:{info['shape']}:wrong-bytes", f"the RPC layer did not get the client's uncompressed request ({len(passthru)} bytes)")
-    elif passthru is not None and refuse:
-        # either refusal or exact pass-through is acceptable (identity; trailing garbage)
-        if seam == [passthru] and st not in (413, 415):
-            pass
-        elif st in refuse and (not seam or st == 400):
-            pass
-        else:
-            fail(f"{codec}:{info['shape']}:bad-outcome-{st}", f"expected one of {sorted(refuse)} or exact pass-through of {len(passthru)} bytes")
+            fail(f"{codec}:{shape0}:wrong-bytes", f"the RPC layer did not get the client's uncompressed request ({len(passthru)} bytes)")
+    elif 400 in refuse and 200 <= st < 300:
+        fail(f"{codec}:undecodable-accepted:{reason}", f"an undecodable {codec} body ({reason}) was answered {st} instead of 400")
+    elif 413 in refuse and st != 413:
+        fail(f"{codec}:{'wire' if m['over_wire'] else 'decoded'}-cap-not-enforced:{shape0}", f"expected {sorted(refuse)}")
+    elif seam and st in (413, 415):
+        fail(f"{codec}:{shape0}:refused-but-dispatched", f"status {st} but the RPC layer was handed a body")
     else:
-        # must be refused
-        if st in refuse and (not seam or (st == 400 and 400 in refuse)):
-            pass
-        elif 400 in refuse and 200 <= st < 300:
-            fail(f"{codec}:undecodable-accepted:{info['shape'].split(':')[-1]}", f"an undecodable {codec} body was answered {st} instead of 400")
-        elif 413 in refuse and st != 413:
-            fail(f"{codec}:{info['shape']}:{'wire' if m['over_wire'] else 'decoded'}-cap-not-enforced-{st}", f"expected {sorted(refuse)}")
-        elif seam and st in (413, 415):
-            fail(f"{codec}:{info['shape']}:refused-but-dispatched", f"status {st} but the RPC layer was handed a body")
-        else:
-            fail(f"{codec}:{info['shape']}:status-{st}", f"expected {sorted(refuse)}")
+        fail(f"{codec}:{shape0}:status-{st}", f"expected {sorted(refuse | decline)}" + (f" or exact pass-through of {len(passthru)} bytes" if passthru is not None else ""))
     if measure:
         bound = 3 * len(w) + 3 * cap + 384 * 1024
         ctx.extra["alloc_measured"] += 1
         ctx.extra["max_peak_over_cap_kib"] = max(ctx.extra["max_peak_over_cap_kib"], max(0, peak - cap) // 1024)
         if peak > bound:
-            fail(f"{codec}:{info['shape']}:allocation", f"peak traced allocation {peak} bytes > bound {bound} (cap {cap}, wire {len(w)}, decoded {info['decoded']}, declared {info['declared']})")
+            fail(f"{codec}:allocation:{shape0}", f"peak traced allocation {peak} bytes > bound {bound} (cap {cap}, wire {len(w)}, decoded {info['decoded']}, declared {info['declared']})")
     want = "pass" if passthru is not None and not refuse else ("either" if passthru is not None else "/".join(str(s) for s in sorted(refuse)))
+    gw = "" if cl == "honest" else f":cl-{cl}"
     ctx.case(
         sample=dict(case, status=st, expected=want, rpc_bytes=[len(s) for s in seam]) if sample else None,
         nontrivial=f"{codec[:2]}{want[:7]}{gw[:6]}",
@@ -514,7 +555,7 @@ def run_item(ctx: Ctx, it: dict[str, Any]) -> None:
 
 def run(ctx: Ctx) -> None:
     K.install_seam()
-    ctx.extra.update({"alloc_measured": 0, "max_peak_over_cap_kib": 0, "items": 0})
+    ctx.extra.update({"alloc_measured": 0, "max_peak_over_cap_kib": 0, "items": 0, "hangs": 0})
     its = items(ctx)
     # bombs first: they are the expensive items, spread them over the shards
     its.sort(key=lambda it: (0 if it["payload"].startswith("zeros-") else 1))
@@ -527,5 +568,5 @@ def run(ctx: Ctx) -> None:
 
 def replay(ctx: Ctx, case: dict[str, Any]) -> None:
     K.install_seam()
-    ctx.extra.update({"alloc_measured": 0, "max_peak_over_cap_kib": 0, "items": 0})
+    ctx.extra.update({"alloc_measured": 0, "max_peak_over_cap_kib": 0, "items": 0, "hangs": 0})
     judge(ctx, case)
